@@ -338,7 +338,9 @@ def scenario_p2p(rng, k):
         pub(sa, ub)
         out.append(rng.choice([f"leave {sb} {ua} unsub=1", f"deltopic {sb} {ua}", f"leave {sb} {ua} unsub=1"]))
         pub(sa, ub)
+        # the one who stayed invites the other one again (mostly), with or without a mode
         out.append(rng.choice([f"setsub {sa} {ub} user={ub}", f"setsub {sa} {ub} user={ub} mode={rng.choice(['JRWPA', 'JRW', 'JRWPASD', 'N'])}",
+                               f"setsub {sa} {ub} user={ub} mode={rng.choice(['JRWPA', 'JRWP', 'JRWPA'])}", f"setsub {sa} {ub} user={ub} mode=JRWPA",
                                f"get {sa} {ub} sub", f"note {sa} {ub} read {n[0]}"]))
         if _maybe_restart(rng, out, 5):
             out.append(f"sub {sa} {ub}")
@@ -382,6 +384,14 @@ def scenario_p2p(rng, k):
             if rng.chance(1, 4):
                 pub(rng.choice([sa, sb]), ub if rng.chance(1, 2) else ua)
             _maybe_restart(rng, out, 10)
+        if rng.chance(1, 2):
+            # with one participant gone the other one still cannot bring in anybody else
+            out.append(f"sub {sa} {ub}")
+            out.append(f"sub {sb} {ua}")
+            out.append(rng.choice([f"leave {sb} {ua} unsub=1", f"deltopic {sb} {ua}"]))
+            out.append(f"setsub {sa} {ub} user={third}" + rng.choice(["", " mode=JRWPA", " mode=JRW"]))
+            out.append(f"sub {sb} {ua}")
+            out.append(f"get {sa} {ub} sub")
         out.append(f"get {sa} {ub} desc")
         out.append(f"get {sb} {ua} desc")
     return out
